@@ -143,12 +143,13 @@ parseChunks:
 				return nil, fmt.Errorf("invalid ICC profile chunk length")
 			}
 
-			chunkData := make([]byte, ch.Length-offset)
-			bytesRead, err := io.ReadFull(r, chunkData)
-			if err != nil && err != io.ErrUnexpectedEOF {
+			// Read incrementally so that memory grows with the data present
+			// rather than with the declared chunk length.
+			chunkData, err := io.ReadAll(io.LimitReader(r, int64(ch.Length-offset)))
+			if err != nil {
 				return nil, err
 			}
-			if bytesRead != len(chunkData) {
+			if uint32(len(chunkData)) != ch.Length-offset {
 				return nil, fmt.Errorf("unexpected EOF reading ICC profile chunk")
 			}
 
